@@ -43,13 +43,38 @@ let show_m o = match o with
         ^ ":" ^ hex_of_bytes data in
     msgs ^ "|" ^ st ^ "#" ^ show_w s.so_w ^ "#" ^ show_r s.so_r
 let variant i = match i with 0 -> v_cobs | 1 -> v_cobs_r | 2 -> v_zpe | _ -> v_zpe_r
+(* stream glue at mechanism level (coq/Cobs/GlueRun.v, harness/c02_glue.c): variants 30..33 *)
+let z_of_int i = if i = 0 then Z0 else if i > 0 then Zpos (pos_of_int i) else Zneg (pos_of_int (- i))
+let rec parse_gops toks = match toks with
+  | [] -> []
+  | "gpush" :: h :: r -> GPush (bytes_of_hex h) :: parse_gops r
+  | "gfin" :: r -> GFin :: parse_gops r
+  | "gflush" :: k :: r -> GFlush (z_of_int (int_of_string k)) :: parse_gops r
+  | "gpoll" :: k :: r -> GPoll (nat_of_int (max 0 (int_of_string k))) :: parse_gops r
+  | "gdisp" :: r -> GDisp :: parse_gops r
+  | "gdrain" :: r -> GDrain :: parse_gops r
+  | t :: _ -> failwith ("bad op " ^ t)
+let show_g o = match o with
+  | None -> "F"
+  | Some s ->
+    let msgs = if s.go_got = [] then "-" else String.concat "," (List.map hexm s.go_got) in
+    msgs ^ "|ok~R" ^ string_of_int (int_of_z s.go_rc) ^ "#" ^ show_w s.go_w ^ "#" ^ show_r s.go_r
+    ^ "#x:" ^ string_of_int (int_of_nat s.go_wire)
 let () =
   let ic = open_in Sys.argv.(1) in
   List.iter (fun line ->
     match split_ws line with
     | id :: v :: wc :: wo :: rc :: ro :: ops ->
-      let ops = parse_ops ops in
       let n s = nat_of_int (int_of_string s) in
+      if int_of_string v >= 30 then begin
+        let gops = parse_gops ops in
+        let w = gworld_init (n wc) (n wo) (n rc) (n ro) in
+        Printf.printf "M %s %s\n" id (String.concat " " (List.map show_g (grun (variant (int_of_string v - 30)) w gops)));
+        Printf.printf "S %s %s\n" id (String.concat " " (List.map show_spec
+          (sspec_run { sent = []; cur = []; open_ = false } (List.map gop_sop gops))))
+      end else
+      begin
+      let ops = parse_ops ops in
       if int_of_string v >= 10 then
         (* stream glue cases (harness/c02_io.c): no mechanism model, specification only *)
         Printf.printf "M %s %s\n" id (String.concat " " (List.map (fun _ -> "*") ops))
@@ -57,4 +82,5 @@ let () =
       let w = world_init (n wc) (n wo) (n rc) (n ro) in
       Printf.printf "M %s %s\n" id (String.concat " " (List.map show_m (wrun (variant (int_of_string v)) w ops))) end;
       Printf.printf "S %s %s\n" id (String.concat " " (List.map show_spec (sspec_run { sent = []; cur = []; open_ = false } ops)))
+      end
     | _ -> ()) (read_lines ic)
